@@ -46,3 +46,9 @@ package api
 //@   requires currentNode != nil && newNode != nil
 //@   ensures err == nil ==> old(currentNode.ID == newNode.ID && currentNode.EntityID == newNode.EntityID && currentNode.Consensus.ID == newNode.Consensus.ID)
 //@   note a re-registration of an existing node is accepted only with the same node ID, the same owning entity and the same consensus key, whatever the node's expiration status (an expired node stays in the registry until it is removed at a later epoch, with its by-entity index entry and stake claim)
+
+//@ func NodeStatus.Unfreeze
+//@   props C17
+//@   requires ns != nil
+//@   modifies ns.FreezeEndTime
+//@   ensures ns.FreezeEndTime == 0
